@@ -5412,10 +5412,17 @@ func ruleID5(c *Ctx) []Ob {
 	n := 0
 	for _, fn := range c.LibFuncs {
 		res := fn.Signature.Results()
-		if res.Len() != 1 || fn.Parent() != nil || len(fn.Params) != 1 || !isStringType(fn.Params[0].Type()) {
+		if res.Len() < 1 || fn.Parent() != nil || len(fn.Params) != 1 || !isStringType(fn.Params[0].Type()) {
 			continue
 		}
-		if bt, ok := res.At(0).Type().Underlying().(*types.Basic); !ok || bt.Kind() != types.Bool {
+		// the verdict: the (last) boolean result - `func(id string) bool` as well as `func(id string) (string, bool)`
+		vi := -1
+		for i := 0; i < res.Len(); i++ {
+			if bt, ok := res.At(i).Type().Underlying().(*types.Basic); ok && bt.Kind() == types.Bool {
+				vi = i
+			}
+		}
+		if vi < 0 {
 			continue
 		}
 		parses := false
@@ -5464,7 +5471,7 @@ func ruleID5(c *Ctx) []Ob {
 		key := c.fname(fn) + "/accepts canonical ids only"
 		bad := ""
 		for _, ret := range returnsOf(fn) {
-			rv, ok := returnedValue(ret, 0)
+			rv, ok := returnedValue(ret, vi)
 			if !ok {
 				continue
 			}
@@ -6662,6 +6669,12 @@ func ruleREC1(c *Ctx) []Ob {
 				if args[i] == ssa.Value(p) || sameOrigin(args[i], p) {
 					continue // handed on unchanged (an accumulator, the same document)
 				}
+				if _, isBasic := p.Type().Underlying().(*types.Basic); isBasic {
+					continue // a counter (the depth of embedding) takes no value apart
+				}
+				if isZeroValue(args[i]) {
+					continue // neither does a zero value (no value to take the fields from)
+				}
 				// a fresh container made here does not bound the recursion; a part of the input does
 				fresh := false
 				for _, og := range origins(args[i]) {
@@ -6710,7 +6723,7 @@ func ruleREC1(c *Ctx) []Ob {
 		})
 	}
 	if n == 0 {
-		o.add(OK, "type walks", "-", "no function of the encoding layer recurses along types alone")
+		o.add(INFO, "type walks", "-", "no function of the encoding layer recurses along types alone")
 	}
 	return o.list
 }
